@@ -34,7 +34,9 @@ KINDS = ['str', 'bytes', 'str_nonascii', 'empty_str', 'empty_bytes', 'none', 'li
          'tuple_str', 'gen_str', 'gen_bytes', 'gen_leading_empty', 'gen_all_empty', 'iter_custom', 'iter_custom_bytes', 'filelike', 'filelike_noclose',
          'resp_returned', 'err_returned', 'resp_raised', 'err_raised', 'resp_gen_body', 'gen_yields_resp', 'gen_yields_err', 'nested3',
          'exception', 'gen_exception_first', 'unsupported_int', 'unsupported_list', 'abort', 'gen_raises_resp', 'dict_false', 'iter_of_lists',
-         'iterable_sep_iter', 'iterable_gen_iter', 'iterable_sep_iter_bytes']
+         'iterable_sep_iter', 'iterable_gen_iter', 'iterable_sep_iter_bytes',
+         # exactly one chunk and nothing after it, not even an empty item
+         'iter_single', 'iter_single_bytes', 'iterable_single', 'gen_single']
 METHODS = ['GET', 'HEAD', 'POST']
 STATUSES = [200, 201, 204, 304, 100, 102, 404, 500, 299, 999, '250 Custom Reason']     # 299: no registered reason phrase
 
@@ -150,6 +152,7 @@ def make_world(hooks, errh):
         resp = app.response
         plain = {'str', 'bytes', 'str_nonascii', 'empty_str', 'empty_bytes', 'none', 'list_str', 'list_bytes', 'list_leading_empty', 'list_empty', 'tuple_str',
                  'gen_str', 'gen_bytes', 'gen_leading_empty', 'gen_all_empty', 'iter_custom', 'iter_custom_bytes', 'filelike', 'filelike_noclose', 'dict_false', 'iter_of_lists',
+                 'iter_single', 'iter_single_bytes', 'iterable_single', 'gen_single',
                  'iterable_sep_iter', 'iterable_gen_iter', 'iterable_sep_iter_bytes'}
         if kind in plain:
             resp.status = S
@@ -187,6 +190,14 @@ def make_world(hooks, errh):
             return counted_gen(['', '', 'x', '', 'y'], st)
         if kind == 'gen_all_empty':
             return counted_gen(['', '', ''], st)
+        if kind == 'iter_single':
+            return CountIter(['only'], st)
+        if kind == 'iter_single_bytes':
+            return CountIter([b'only'], st)
+        if kind == 'iterable_single':
+            return SepIterable(['only'], st, 'gen')
+        if kind == 'gen_single':
+            return counted_gen(['only'], st)
         if kind == 'iter_custom':
             return CountIter(['', 'c1', 'c2'], st)
         if kind == 'iter_custom_bytes':
@@ -300,6 +311,7 @@ PLAIN_BODY = {
     'list_str': 'abcé'.encode(), 'list_bytes': b'abc', 'list_leading_empty': b'xy', 'list_empty': b'', 'tuple_str': b't1t2',
     'gen_str': 'g1g2é'.encode(), 'gen_bytes': b'g1g2', 'gen_leading_empty': b'xy', 'gen_all_empty': b'', 'iter_custom': b'c1c2',
     'iter_custom_bytes': b'c1c2', 'iterable_sep_iter': b's1s2', 'iterable_gen_iter': b's1s2', 'iterable_sep_iter_bytes': b's1s2', 'filelike': b'file-data-' * 10, 'filelike_noclose': b'file-data-' * 10, 'dict_false': b'',
+    'iter_single': b'only', 'iter_single_bytes': b'only', 'iterable_single': b'only', 'gen_single': b'only',
 }
 
 
@@ -459,7 +471,7 @@ def run_program(ctx, W, p):
         # close discipline
         if ref['handler_ran']:
             k = p['kind']
-            CLOSEABLE = ('iter_custom', 'iter_custom_bytes', 'iterable_sep_iter', 'iterable_gen_iter', 'iterable_sep_iter_bytes')
+            CLOSEABLE = ('iter_custom', 'iter_custom_bytes', 'iterable_sep_iter', 'iterable_gen_iter', 'iterable_sep_iter_bytes', 'iter_single', 'iter_single_bytes', 'iterable_single')
             if k in CLOSEABLE and (st.get('produced') or no_body):
                 ctx.count('closed_once_checked')
                 if st.get('produced') and st.get('iter_close') != 1:
@@ -474,7 +486,7 @@ def run_program(ctx, W, p):
                     ctx.violation(f'file-like-closed-{st.get("file_close")}-times', where, wit)
             if k == 'filelike_noclose' and fw:
                 ctx.count('file_wrapper_used')
-            if k in ('gen_str', 'gen_bytes', 'gen_leading_empty', 'resp_gen_body') and st.get('gen_started'):
+            if k in ('gen_str', 'gen_bytes', 'gen_leading_empty', 'resp_gen_body', 'gen_single') and st.get('gen_started'):
                 ctx.count('closed_once_checked')
                 if st.get('produced') and st.get('gen_finalised') != 1:
                     ctx.violation(f'handler-generator-finalised-{st.get("gen_finalised")}-times-after-close', where, wit)
